@@ -144,6 +144,72 @@ def run(chk):
     for frag in ('Missing required child', 'Child limit exceeded', 'Invalid children detected', 'Unknown element found'):
         chk.ob('C04-R', 'the validator reports "%s"' % frag, frag in texts, '', vv.loc, key='C04-R|msg|%s' % frag)
 
+    # ---- P: the structural checks are not skipped on any path
+    chk.rule('C04-P', 'inside the validator no path skips a structural check: for a sequence/choice reference the allowed-children '
+                      'test and the loop over the required children are reached on every path; for a leaf the datatype check is '
+                      'reached except for `varies`; unknown elements are reported before anything else')
+    from ..cfg import cfg_of, ENTRY, EXIT, RAISE
+    g = cfg_of(ck)
+    seq_if = None
+    for n_ in own_nodes(ck.node):
+        if isinstance(n_, ast.If) and norm(n_.test).startswith('ref[0] in ('):
+            seq_if = n_
+    if seq_if is None:
+        raise AnalysisError('_check_known_element: the sequence/choice branch was not found')
+    tnode = g.node_of_ast.get(id(seq_if))
+    seq_entry = [d for d, lab in g.succ[tnode] if lab == 'true']
+    leaf_entry = [d for d, lab in g.succ[tnode] if lab == 'false']
+    normal = lambda a, b, lab: not (lab == 'exc' and b == RAISE)
+
+    def must_pass(entries, targets, what, key, allow_conditions=()):
+        bad = None
+        for e in entries:
+            if e in targets:
+                continue
+            def ok_edge(a, b, lab):
+                if not normal(a, b, lab):
+                    return False
+                nd = g.nodes[a]
+                if nd.kind == 'test' and lab == 'true' and norm(nd.ast) in allow_conditions:
+                    return False
+                return True
+            reach = g.reach(e, avoid=targets, labels_ok=ok_edge)
+            if EXIT in reach:
+                pth = g.path(e, EXIT, avoid=targets, labels_ok=ok_edge) or []
+                bad = g.describe(pth[:4])
+        chk.ob('C04-P', what, bad is None, '' if bad is None else 'the check can be skipped: ... %s' % ' -> '.join(bad), ck.loc, key=key)
+    loops_ = [nid for nid, nd in g.nodes.items() if nd.kind == 'for' and 'valid_children_refs' in nd.label]
+    inval = [nid for nid, nd in g.nodes.items() if nd.kind == 'test' and 'element_children <= valid_children' in nd.label]
+    if not loops_ or not inval:
+        raise AnalysisError('_check_known_element: children loop / allowed-children test not found')
+    must_pass(seq_entry, set(inval), 'sequence branch: the allowed-children test is reached on every path', 'C04-P|allowed-children')
+    must_pass(seq_entry, set(loops_), 'sequence branch: the loop over the declared children is reached on every path', 'C04-P|children-loop')
+    rep_calls = [nid for nid, nd in g.nodes.items() if nd.kind == 'stmt' and '_check_repetitions(' in nd.label]
+    body_entry = [d for l_ in loops_ for d, lab in g.succ[l_] if lab == 'iter']
+    # inside the loop: the repetition check is reached unless the child lookup itself raised (existing `except Exception: pass`)
+    handlers = {nid for nid, nd in g.nodes.items() if nd.kind == 'handler'}
+    bad = None
+    for e in body_entry:
+        reach = g.reach(e, avoid=set(rep_calls) | handlers | set(loops_), labels_ok=normal)
+        if EXIT in reach:
+            bad = 'loop body can leave the function without checking the cardinality'
+    back = any(l_ in g.reach(e, avoid=set(rep_calls) | handlers, labels_ok=normal) for e in body_entry for l_ in loops_)
+    chk.ob('C04-P', 'each declared child has its cardinality checked', bad is None and not back and bool(rep_calls),
+           bad or ('an iteration can finish without calling _check_repetitions' if back else ''), ck.loc, key='C04-P|cardinality')
+    dt_calls = {nid for nid, nd in g.nodes.items() if nd.kind == 'stmt' and '_check_datatype(' in nd.label}
+    must_pass(leaf_entry, dt_calls, 'leaf branch: the datatype check is reached (except for varies)', 'C04-P|datatype',
+              allow_conditions=("el.datatype == 'varies'",))
+    g2 = cfg_of(isv)
+    unk = [nid for nid, nd in g2.nodes.items() if nd.kind == 'test' and norm(nd.ast) == 'el.is_unknown()']
+    first = [d for d, lab in g2.succ[ENTRY]]
+    # skip the docstring-free entry: the first executable node must be the unknown test
+    okf = bool(unk) and all(f in unk for f in first)
+    chk.ob('C04-P', '_is_valid tests for an unknown element first', okf, '', isv.loc, key='C04-P|unknown-first')
+    gz = cfg_of(vv.nested['_check_z_element'])
+    zl = [nid for nid, nd in gz.nodes.items() if nd.kind == 'for' and 'el.children' in nd.label]
+    chk.ob('C04-P', 'Z-elements have their children validated', bool(zl) and EXIT not in gz.reach(ENTRY, avoid=set(zl) | {nid for nid, nd in gz.nodes.items() if isinstance(nd.ast, ast.Return) and gz.nodes[nid].lineno < gz.nodes[zl[0]].lineno}, labels_ok=normal) if zl else False,
+           '', vv.nested['_check_z_element'].loc, key='C04-P|z-children')
+
     # ---- C
     vts = tables.load_all(ix.root)
     tablerules.c04_cardinalities(chk, vts)
